@@ -182,6 +182,10 @@ class NpCalls:
             j = join_all(arrs)
             out = out.w(geo=j.geo, idx=j.idx, mono=j.mono, dtype=j.dtype, at=j.at, maybe_empty=None,
                         rollwrap=True if any(a.rollwrap for a in arrs) else None)
+            ats = {a.at if a.at is not None else 0 for a in arrs if a.idx is not None and a.idx[0] == 'FRAME'}
+            if len(ats) > 1:
+                interp.emit('frame_offset_mix', node, offsets=sorted(map(str, ats)))
+                out = out.w(at='mixed')
             if j.geo_conflict:
                 interp.emit('kind_mix', node, kinds=j.geo_conflict, fn=fn)
             if fn in ('vstack', 'stack', 'array'):
